@@ -7,4 +7,5 @@ CONSTANTS
   FileLen = 2
   RespLen = 2
   SlackMs = 1500
+  NoDeadlineMs = 10000
 CHECK_DEADLOCK FALSE
